@@ -121,7 +121,7 @@ int main(int argc, char **argv) {
   while (fgets(line, HX_MAXLINE, stdin)) {
     int n = hx_words(line, w, 4096);
     if (!n) { printf("bad-op\n"); continue; }
-    alarm(20);
+    alarm(6);   // watchdog: no legitimate op needs a second
     // ======================================================== modelled ops
     if (!strcmp(w[0], "perturb") && n == 2) {
       perturb((unsigned) atoi(w[1]));
